@@ -54,8 +54,9 @@ builder of `parser.rs` can be handed (`builderWT`), hence independent of the gra
 theorem C07_partial_typing (s : Str) (q : List Segment) (h : parseJsonPath s = .ok q) : Spec.wtSegs q = true :=
   parse_wellTyped s q h
 
-/-- integer range, for ALL strings: every integer of an index selector, a slice bound or step, or a singular-query index of an
-accepted query lies in the I-JSON range ±(2^53-1) (again for every pair tree the builder can be handed) -/
+/-- number ranges, for ALL strings: every integer of an index selector, a slice bound or step, or a singular-query index of an
+accepted query lies in the I-JSON range ±(2^53-1), and every number LITERAL is an integer in that range or a decimal that rounds to
+a finite double (again for every pair tree the builder can be handed) -/
 theorem C07_partial_int_range (s : Str) (q : List Segment) (h : parseJsonPath s = .ok q) : rgSegs q = true :=
   parse_intsInRange s q h
 
